@@ -79,7 +79,7 @@ PROPS["C05"] = {
     "trusted_base": ST_TRUSTED + [
         "Kani harness crate: real ringbuffer.rs compiled unchanged (#[path]); StateStorage of vm.rs and StateStorage + state_*_host of wasm.rs cut verbatim (rule X1 for the host functions)",
         "Vec::resize is stubbed by a panicking function in the WASM harnesses: lazy growth is proved unreachable inside a layout-sized storage",
-        "composition of the VM instruction arms Delay/Mem/GetState/SetState (inside Machine::execute) out of the contracted primitives is read off, not verified",
+        "composition of the VM instruction arms Delay/Mem/GetState/SetState (inside Machine::execute) out of the contracted primitives is NOT verified -- known finding F5 shows that the Delay arm passes the wrong cell size when a function has two delays of different sizes",
     ],
     "assumptions": [
         "Kani units: the number of state words is bounded as stated per harness; everything else is full-domain symbolic",
